@@ -12,6 +12,7 @@ import (
 
 	"verifharness/mon"
 	"verifharness/ref"
+	"verifharness/xport"
 	"verifharness/wsx"
 )
 
@@ -200,10 +201,15 @@ func checkBody(c *mon.C, code uint16, reason string) bool {
 	}
 	body = again
 	if len(reason) <= 123 {
-		p := make([]byte, 2+len(reason))
+		// (the destination is a view into a larger buffer of the caller's: exactly 2+len(reason) bytes are written)
+		p, _, neighbours := xport.Arena3(make([]byte, 2+len(reason)))
 		ws.PutCloseFrameBody(p, ws.StatusCode(code), reason)
 		if !bytes.Equal(p, body) {
 			c.Fail("closebody/put", "PutCloseFrameBody differs from NewCloseFrameBody", det)
+			return false
+		}
+		if w := neighbours(); w != "" {
+			c.Fail("closebody/put-overrun", "PutCloseFrameBody: "+w, det)
 			return false
 		}
 	}
